@@ -33,6 +33,41 @@ def rangeFromList (a : Int) (k : Nat) : List Int := (List.range k).map fun (i : 
 /-- the first `k` chars of `a..`: the first `k` of all the chars from `a` on -/
 def charRangeFromList (a : Nat) (k : Nat) : List Nat := (charRangeList a 0x110000).take k
 
+/-! ### `RangeFrom` driven to the type's maximum, in a build with overflow checks
+
+`RangeFrom::next` is `let n = Step::forward(self.start, 1); Some(mem::replace(&mut self.start, n))`, and
+`Step::forward` panics on overflow when overflow checks are on (always, for `char`).  So in the profile the
+harness is built with, `a..` yields `a, …, MAX-1`, the step that would have to compute `MAX+1` panics, and
+`None` is never returned.  A run of `k` steps is the values yielded and whether a step panicked. -/
+
+/-- `k` steps of `a..` over an integer type with maximum `MAX` -/
+def rangeFromChecked (MAX a : Int) (k : Nat) : List Int × Bool :=
+  let d := (MAX - a).toNat
+  (rangeFromList a (min k d), decide (d < k))
+
+/-- `k` steps of `a..` over `char`: the first `k` chars from `a` on that are below `char::MAX` -/
+def charRangeFromChecked (a k : Nat) : List Nat × Bool :=
+  let l := (charRangeFromList a k).filter (· < 0x10FFFF)
+  (l, decide (l.length < k))
+
+/-- `Zip<RangeFrom, I>` where `I` has `k` items pulls `k + 1` items from the range before it stops -/
+def zipOfRun {α : Type} (run : Nat → List α × Bool) (k : Nat) : List α × Bool :=
+  let r := run (k + 1)
+  if r.2 then r else (r.1.take k, false)
+
+/-- `nth(n)`: the item with index `n` of `n + 1` steps (`none` = one of those steps panicked) -/
+def nthOfRun {α : Type} (run : Nat → List α × Bool) (n : Nat) : Option α :=
+  let r := run (n + 1)
+  if r.2 then none else r.1[n]?
+
+/-- `find(p)` with at most `limit` calls of `p`: `.inl x` found, `.inr true` a step panicked first,
+    `.inr false` neither within the limit -/
+def findOfRun {α : Type} (run : Nat → List α × Bool) (p : α → Bool) (limit : Nat) : α ⊕ Bool :=
+  let r := run (limit + 1)
+  match (r.1.take limit).find? p with
+  | some x => .inl x
+  | none => .inr r.2
+
 /-- a double-ended iterator over the items `l`, asked the history `h`: one answer per call -/
 def dequeRun {α : Type} : List α → List Dir → List (Option α)
   | _, [] => []
@@ -97,5 +132,10 @@ def charRangeIncEnds (a b : Nat) (d : Nat) : Option (List Nat × List Nat) := ch
 def charRangeFromFast (a k : Nat) : List Nat :=
   let l := charRangeList a (min (a + k + 2048) 0x110000)
   if k ≤ l.length then l.take k else charRangeFromList a k
+
+/-- `charRangeFromChecked` through `charRangeFromFast` -/
+def charRangeFromCheckedFast (a k : Nat) : List Nat × Bool :=
+  let l := (charRangeFromFast a k).filter (· < 0x10FFFF)
+  (l, decide (l.length < k))
 
 end Konst.Spec.Range
